@@ -195,7 +195,7 @@ def gen_layer_a(ctx, n_rand):
             l = min(c, ln - off)
             tl = max(tl, off + l)
             items.append("%d:%d:%d" % (off, l, tl if rng.random() < 0.9 else rng.randrange(ln + 20)))
-        L.append("body %d %d %s" % (ln, rng.randrange(256), ",".join(items)))
+        L.append("bbody %d %d %s" % (ln, rng.randrange(256), ",".join(items)))
     # ---- the single-body receiver (real coap_handle_request_put_block), with and without Size1, any order, duplicates
     for _ in range(n_rand * 2):
         szx = rng.randrange(3)
@@ -349,7 +349,7 @@ def spec_layer_a(ctx, c):
             # exactness is claimed for a non-empty set all of whose members are < t (what the callers guarantee)
             if acc and max(acc) < t and (allin[t] == "1") != all(k in acc for k in range(t)):
                 return "all-blocks-in(%d) wrong for accepted set %s" % (t, sorted(acc))
-    elif op == "body":
+    elif op == "bbody":
         ln, seed = int(w[1]), int(w[2])
         body = mk_body(ln, seed)
         # if the stores follow the receiver's discipline (total = max so far, every block stored) the result is the body
